@@ -11,3 +11,21 @@ Theorem C07_accepts_sound : forall fuel tr,
   exists tr' s, visible tr' = tr /\ wexec (init (trace_budget tr)) tr' s.
 Proof. exact accepts_sound. Qed.
 Print Assumptions C07_accepts_sound.
+
+Require Import LifecycleSteps LifecycleInv LifecycleTerm.
+
+(* From every reachable state in which a terminating stimulus has occurred (the group
+   context is cancelled - Close() took effect or a loop failed -, Close() has been called,
+   the QUIT has been written, the peer has closed, or an ERROR has been dequeued by the
+   normal branch of execLoop) every schedule reaches Returned within `measure s` steps,
+   environment actions included, and until then some goroutine of the library can always
+   move: no schedule runs for ever and none blocks. *)
+Theorem C07_terminates : forall b tr s,
+  exec b tr s -> ending s = true -> all_paths (fun s => returned s = true) (measure s) s.
+Proof. exact terminates. Qed.
+Print Assumptions C07_terminates.
+
+(* the explicit measure decreases on every transition of the machine *)
+Theorem C07_measure_decreases : forall s l s', step s l s' -> measure s' < measure s.
+Proof. exact step_measure_dec. Qed.
+Print Assumptions C07_measure_decreases.
